@@ -201,7 +201,24 @@ func (vc *VC) execReturn(fr *Frame, st *State, reach string, vals []Val) {
 	if spec == nil {
 		return
 	}
+	rn0 := vc.resultNames(spec, fr.fn, len(vals))
+	saved := fr.names
+	fr.names = map[string]Val{}
+	for k, v := range saved {
+		fr.names[k] = v
+	}
+	for i, v := range vals {
+		if i < len(rn0) {
+			if _, taken := fr.names[rn0[i]]; !taken {
+				fr.names[rn0[i]] = v
+			}
+		}
+	}
+	if _, taken := fr.names["result"]; !taken && len(vals) == 1 && len(fr.byName["result"]) == 0 {
+		fr.names["result"] = vals[0]
+	}
 	vc.ghostPoint(fr, st, reach, "before", "return", 1, "")
+	fr.names = saved
 	vc.smoke(fr.oblName(fmt.Sprintf("smoke/return#%d", fr.count("smoke-ret"))), fr.defProps(), reach)
 	names := map[string]Val{}
 	for k, v := range fr.names {
